@@ -119,3 +119,49 @@ V("c13-preserving-extra-map-entry", "C13", "silent",
 V("c13-preserving-validate-order-swapped", "C13", "silent",
   (SIMF, "        self._validate_instruction_existence(instructions)\n        self._validate_instruction_modes(instructions, d)\n",
    "        self._validate_instruction_modes(instructions, d)\n        self._validate_instruction_existence(instructions)\n"))
+
+# ------------------------------------------------------------------------------------------- C12
+V("c12-no-finally-modes", "C12", {"rule": "C12a", "contains": "instruction.modes"},
+  (SIMF, "            finally:\n                # NOTE: The modes of the user's instruction are restored even if the\n                # execution raises.\n                instruction._modes = original_modes\n",
+   "            except KeyError:\n                raise\n            instruction._modes = original_modes\n"))
+V("c12-restore-only-on-measurement", "C12", {"rule": "C12a", "contains": "instruction.modes"},
+  (SIMF, "                instruction._modes = original_modes\n", "                if isinstance(instruction, Measurement):\n                    instruction._modes = original_modes\n"))
+V("c12-unresolve-not-in-finally", "C12", {"rule": "C12a", "contains": "_resolve_params"},
+  (SIMF, "            finally:\n                # NOTE: The parameters of the user's instruction are restored even if\n                # the validation or the simulation step raises.\n                if not is_instruction_resolved:\n                    instruction._unresolve_params()\n",
+   "            except KeyError:\n                raise\n            if not is_instruction_resolved:\n                instruction._unresolve_params()\n"))
+V("c12-restore-wrappers", "C12", {"rule": "C12a", "contains": "restores-original"},
+  (INSTR, "        self._params.update(self._original_unresolved_params)", "        self._params.update(self._unresolved_params)"))
+V("c12-captured-after-overwrite", "C12", {"rule": "C12a", "contains": "instruction.modes"},
+  (SIMF, "            original_modes = instruction.modes\n\n            try:\n                if not hasattr(instruction, \"modes\") or instruction.modes is tuple():\n                    instruction.modes = active_modes\n",
+   "            try:\n                if not hasattr(instruction, \"modes\") or instruction.modes is tuple():\n                    instruction.modes = active_modes\n                original_modes = instruction.modes\n"))
+V("c12-initial-state-not-copied", "C12", {"rule": "C12b", "contains": "initial_state"},
+  (SIMF, "            state = initial_state.copy()", "            state = initial_state"))
+V("c12-config-not-copied", "C12", {"rule": "C12b", "contains": "config"},
+  (SIMF, "self.config = config.copy() if config is not None else self._config_class()", "self.config = config if config is not None else self._config_class()"))
+V("c12-state-config-not-copied", "C12", {"rule": "C12b", "contains": "config"},
+  ("piquasso/api/state.py", "self._config = config.copy() if config is not None else self._config_class()", "self._config = config or self._config_class()"))
+V("c12-nested-program-no-copy", "C12", {"rule": "C12b", "contains": "mutator-applied-to-copy"},
+  ("piquasso/api/program.py", "            instruction_copy = instruction.copy()\n", "            instruction_copy = instruction\n"))
+V("c12-user-matrix-written", "C12", {"rule": "C12c", "contains": "passive_linear"},
+  ("piquasso/_simulators/gaussian/simulation_steps.py", "    _apply_passive_linear(state, passive_block, modes=modes)\n\n    return [Branch(state=state)]\n\n\ndef _apply_passive_linear(",
+   "    passive_block[0, 0] = passive_block[0, 0].conjugate()\n    _apply_passive_linear(state, passive_block, modes=modes)\n\n    return [Branch(state=state)]\n\n\ndef _apply_passive_linear("))
+V("c12-user-theta-sorted", "C12", {"rule": "C12c", "contains": "snap"},
+  ("piquasso/_simulators/fock/pure/simulation_steps/__init__.py", "    theta = np.array(instruction._get_all_params(state._connector)[\"theta\"])", "    theta = instruction._get_all_params(state._connector)[\"theta\"]\n    theta.sort()"))
+V("c12-user-param-via-helper", "C12", {"rule": "C12c", "contains": "lossy_interferometer"},
+  ("piquasso/_simulators/passive/simulation_steps.py", "    embedded = np.identity(len(state.interferometer), dtype=state._config.complex_dtype)\n", "    embedded = np.identity(len(state.interferometer), dtype=state._config.complex_dtype)\n    matrix *= 1.0\n"))
+V("c12-memo-basis-written", "C12", {"rule": "C12d", "contains": "get_fock_space_basis"},
+  ("piquasso/_simulators/fock/pure/state.py", "        space = fallback_np.copy(self._space)\n", "        space = self._space\n"))
+V("c12-memo-index-list-written", "C12", {"rule": "C12d", "contains": "calculate_state_index_matrix_list"},
+  ("piquasso/_simulators/fock/pure/simulation_steps/__init__.py", "        state_index_matrix_list = calculate_state_index_matrix_list(d, cutoff, mode)\n", "        state_index_matrix_list = calculate_state_index_matrix_list(d, cutoff, mode)\n        state_index_matrix_list.reverse()\n"))
+V("c12-cxx-permanent-writes-input", "C12", {"rule": "C12e", "contains": "permanent_cpp"},
+  ("src/permanent.cpp", "    Matrix<TComplex> mtx2(A.rows, A.cols);\n    for (size_t i = 0; i < A.size(); i++)\n    {\n        mtx2[i] = A[i] * TComplex(2.0, 0.0);\n    }",
+   "    Matrix<TComplex> mtx2(A);\n    for (size_t i = 0; i < A.size(); i++)\n    {\n        mtx2[i] = A[i] * TComplex(2.0, 0.0);\n    }"))
+V("c12-cxx-torontonian-no-copy", "C12", {"rule": "C12e", "contains": "torontonian_cpp"},
+  ("src/torontonian_common.hpp", "    Matrix<TScalar> matrix(dim, dim);\n    for (size_t idx = 0; idx < dim; idx++)", "    Matrix<TScalar> matrix(matrix_in);\n    for (size_t idx = 0; idx < dim; idx++)"))
+V("c12-preserving-rename", "C12", "silent",
+  (SIMF, "original_modes", "saved_modes", 2))
+V("c12-preserving-copy-then-write", "C12", "silent",
+  ("piquasso/_simulators/gaussian/simulation_steps.py", "    _apply_passive_linear(state, passive_block, modes=modes)\n\n    return [Branch(state=state)]\n\n\ndef _apply_passive_linear(",
+   "    passive_block = np.copy(passive_block)\n    passive_block[0, 0] = passive_block[0, 0].conjugate()\n    _apply_passive_linear(state, passive_block, modes=modes)\n\n    return [Branch(state=state)]\n\n\ndef _apply_passive_linear("))
+V("c12-preserving-cxx-copy", "C12", "silent",
+  ("piquasso/_math/torontonian.cpp", "    Matrix<TScalar> native_matrix = numpy_to_matrix(matrix);\n\n    TScalar result = torontonian_cpp(native_matrix);", "    Matrix<TScalar> native_matrix_shared = numpy_to_matrix(matrix);\n    Matrix<TScalar> native_matrix = native_matrix_shared.copy();\n\n    TScalar result = torontonian_cpp(native_matrix);"))
